@@ -12,6 +12,8 @@ Inductive event :=
 | CallWorker (w : string)            (* recv.w(..): method of the same type on the same receiver *)
 | PassField (f callee : string)      (* a reference into recv.f handed to someone else *)
 | PassRecv (callee : string)         (* the receiver itself handed on *)
+| Global (g : string)                (* a package-level variable is mentioned: state shared by all values of the type,
+                                       not guarded by the receiver's mutex *)
 | Unsupported (what : string)        (* construct not followed by the translator *)
 | Return.
 
